@@ -14,7 +14,7 @@ separately (unit()).
                                division or square root).
 * Convex polygon with corners v_0..v_{m-1} (any orientation), centroid g, edge i from
   a=v_i to b=v_{i+1}, e=b-a, unnormalised outward normal n_i = +(e_y,-e_x) if the corners run
-  counter-clockwise (cross(e_0,e_1) > 0), -(e_y,-e_x) if clockwise:
+  counter-clockwise (cross(v_1-v_0, v_{m-1}-v_0) > 0), -(e_y,-e_x) if clockwise:
     - p in the open interior of edge i, farther than `tau` (edge parameter) from both ends:
       nu is THE unit vector perpendicular to the edge pointing away from the polygon:
       nu.e == 0  and  nu.(g - p) < 0        (together with nu.nu == 1);
@@ -60,22 +60,22 @@ def neg(nu):
 # ---- primitives --------------------------------------------------------------
 
 
-# every claim is a triple (name, premise, conclusion); claims() states premise => conclusion
+# every claim is (name, side conditions, premise, conclusion); claims() states conditions & premise => conclusion
 
 
 def interval_claims(lb, ub, p, nu, L):
-    return [("left_end_minus_one", L.eq(p[0], lb), L.eq(nu[0], -1)),
-            ("right_end_plus_one", L.eq(p[0], ub), L.eq(nu[0], 1))]
+    return [("left_end_minus_one", [], L.eq(p[0], lb), L.eq(nu[0], -1)),
+            ("right_end_plus_one", [], L.eq(p[0], ub), L.eq(nu[0], 1))]
 
 
 def ball_claims(c, r, p, nu, L, tol=1e-6):
-    return [("radial(%d)" % i, True, L.eq(nu[i] * r, p[i] - c[i], tol)) for i in range(len(c))]
+    return [("radial(%d)" % i, [], True, L.eq(nu[i] * r, p[i] - c[i], tol)) for i in range(len(c))]
 
 
 def polygon_frame(corners):
     """-> (m*centroid, orientation, [(a, e, r)] per edge a->b: e = b-a, r = (e_y, -e_x) the right-hand
-    perpendicular).  orientation = cross(e_0, e_1): > 0 iff the corners run counter-clockwise (the polygon is
-    convex, so every corner turns the same way); the outward normal of edge i is then +r_i, else -r_i."""
+    perpendicular).  orientation = cross(v_1 - v_0, v_{m-1} - v_0): > 0 iff the corners run counter-clockwise
+    (the polygon is convex, so every corner turns the same way); the outward normal of edge i is then +r_i, else -r_i."""
     m = len(corners)
     g = [dot([c[0] for c in corners], [1] * m), dot([c[1] for c in corners], [1] * m)]  # m * centroid (no division)
     out = []
@@ -83,7 +83,8 @@ def polygon_frame(corners):
         a, b = corners[i], corners[(i + 1) % m]
         e = [b[0] - a[0], b[1] - a[1]]
         out.append((a, e, [e[1], -e[0]]))
-    return g, cross2(out[0][1], out[1][1]), out
+    last = [corners[m - 1][0] - corners[0][0], corners[m - 1][1] - corners[0][1]]
+    return g, cross2(out[0][1], last), out
 
 
 def polygon_claims(corners, p, nu, L, tau=2e-4, tol=1e-6):
@@ -104,16 +105,17 @@ def polygon_claims(corners, p, nu, L, tau=2e-4, tol=1e-6):
     out = []
     for i, (a, e, r) in enumerate(fr):  # one claim per edge / corner: small queries
         # open edge interior: THE outward unit normal of the edge (with nu.nu == 1 claimed separately)
-        out.append(("edge_interior_is_outward_edge_normal(e%d)" % i, inner[i],
+        out.append(("edge_interior_is_outward_edge_normal(e%d)" % i, [], inner[i],
                     L.And(L.eq(dot(nu, e), 0, tol), L.lt(dot(nu, gp), 0))))
         # anywhere on the closed edge: a step against nu enters the open half-plane of this edge
-        out.append(("step_against_normal_enters(e%d)" % i, on[i],
-                    L.And(L.Implies(ccw, L.gt(dot(nu, r), 0)), L.Implies(cw, L.lt(dot(nu, r), 0)))))
+        # (one claim per orientation: the outward side is the right-hand one iff counter-clockwise)
+        out.append(("step_against_normal_enters(e%d)@ccw" % i, [ccw], on[i], L.gt(dot(nu, r), 0)))
+        out.append(("step_against_normal_enters(e%d)@cw" % i, [cw], on[i], L.lt(dot(nu, r), 0)))
         # corner zone of the vertex v where edge i ends and edge j starts: nu in the normal cone
         # N(v) = {nu : nu.(x - v) <= 0 for all x in the polygon} = {nu.(-e_i) <= 0, nu.e_j <= 0} (convexity)
         j = (i + 1) % m
         ej = fr[j][1]
-        out.append(("corner_zone_in_normal_cone(v%d)" % j, L.Or(near_end[i], near_start[j]),
+        out.append(("corner_zone_in_normal_cone(v%d)" % j, [], L.Or(near_end[i], near_start[j]),
                     L.And(L.ge(dot(nu, e), 0), L.le(dot(nu, ej), 0))))
     return out
 
@@ -192,7 +194,7 @@ def claims3(oset, p, nu, prm, L, tau=2e-4, tol=1e-6):
         return out
     else:
         raise NotImplementedError("no normal oracle for %s" % type(oset).__name__)
-    return [(n, oset, [], pr, co) for n, pr, co in cl]
+    return [(n, oset, list(cs), pr, co) for n, cs, pr, co in cl]
 
 
 def claims(oset, p, nu, prm, L, tau=2e-4, tol=1e-6):
